@@ -16,7 +16,7 @@ def scenarios(seed, tier):
     """Deterministic scenario matrix: every fitness family x every preset, both executors, all constructors."""
     out = []
     if tier == "quick":
-        sizes, epochs, reps = [3, 5, 8, 12, 20, 30], 6, 1
+        sizes, epochs, reps = [3, 5, 8, 12, 20, 30], 12, 1
     else:
         sizes, epochs, reps = [3, 4, 5, 8, 12, 20, 30, 50, 80], 30, 6
     k = 0
@@ -25,6 +25,8 @@ def scenarios(seed, tier):
             for pre in range(PRESETS):
                 size = sizes[(k + rep) % len(sizes)]
                 ep = epochs if size <= 30 else max(8, epochs // 3)
+                if pre in (2, 4):
+                    ep = max(ep, 14)     # fast-stagnation presets: delta coding fires after DropOffAge + 5 epochs without a record
                 out.append({"seed": seed * 100000 + k, "popsize": size, "executor": "par" if k % 3 == 2 else "seq",
                             "start": STARTS[(k // 2) % len(STARTS)], "fitness": fam, "epochs": ep, "preset": pre})
                 k += 1
@@ -90,7 +92,7 @@ def epoch_traces(ctx, replay, prop):
                 scs.append(p["scenario"])
         groups = [[s] for s in scs[:12]]
     else:
-        groups = chunk(scenarios(ctx.seed, ctx.tier), 900 if ctx.tier == "quick" else 2500)
+        groups = chunk(scenarios(ctx.seed, ctx.tier), 1200 if ctx.tier == "quick" else 2500)
     if not groups:
         return {}
     ctx.vh_binary(pkg="vh_genome")
@@ -158,7 +160,7 @@ def c10(ctx, replay):
     ctx.nontrivial = st.get("species-quota>5", 0)
 
 
-_NOTE = ("Trace validation of seeded scenarios (quick: 48 scenarios x 6 epochs, population 3..30; thorough: 288 scenarios x up to 30 "
+_NOTE = ("Trace validation of seeded scenarios (quick: 48 scenarios x 12-14 epochs, population 3..30; thorough: 288 scenarios x up to 30 "
          "epochs, population 3..80), not exhaustive; MC_Epoch explores the turnover protocol exhaustively on the abstract model only. "
          "Trusted: TLC, the projection of the population (harness/cmd/vh_genome/epoch.go).")
 CHECKS = {
